@@ -99,7 +99,7 @@ def run(ns, prop=None):
     def one(j):
         n, pr, p = j
         r = subprocess.run([os.path.join(VERIF, "check"), pr, "--pdb", p, "--no-evidence"], capture_output=True, text=True)
-        keys = re.findall(r"\[(C\d\d/[^\]]+)\]\s*$", r.stdout + r.stderr, re.M)
+        keys = re.findall(r"\[(C\d\d/[^\]]+)\]\s*$", "\n".join(l for l in (r.stdout + r.stderr).splitlines() if not l.startswith("KNOWN-FINDING")), re.M)
         return n, pr, r.returncode, keys
     alarms = {}
     with ThreadPoolExecutor(14) as ex:
